@@ -863,9 +863,14 @@ class Object(base.Symbolic, metaclass=ObjectMeta):
       if deep or isinstance(v, base.Symbolic):
         v = base.clone(v, deep, memo)
       kwargs[k] = v
-    return self.__class__(allow_partial=self._allow_partial,
-                          sealed=self._sealed,
-                          **kwargs)  # pytype: disable=not-instantiable
+    # NOTE: per-object flags are copied per node: the copy is built unsealed
+    # (the cloned children carry their own sealed flag) and then flagged.
+    new_value = self.__class__(allow_partial=self._allow_partial,
+                               sealed=False,
+                               **kwargs)  # pytype: disable=not-instantiable
+    new_value._sym_attributes.sym_seal(self._sealed)  # pylint: disable=protected-access
+    new_value.sym_seal(self._sealed)
+    return new_value.set_accessor_writable(self._accessor_writable)
 
   def _sym_missing(self) -> Dict[str, Any]:
     """Returns missing values."""
